@@ -205,6 +205,24 @@ class ExtSimpleTaskPool(SimpleTaskPool):
         """A read-only extra property."""
         return "ro:" + str(self)
 
+    @property
+    def verbose(self) -> bool:
+        """A read/write flag (a settable property whose value is annotated bool)."""
+        return getattr(self, "_verbose", False)
+
+    @verbose.setter
+    def verbose(self, value: bool) -> None:
+        self._verbose = value
+
+    @property
+    def label(self) -> str:
+        """A read/write text property."""
+        return getattr(self, "_label", "")
+
+    @label.setter
+    def label(self, value: str) -> None:
+        self._label = value
+
 
 POOL_CLASSES = {
     "TaskPool": TaskPool,
